@@ -741,9 +741,252 @@ def gen_C13(rng, tier, dist):
     return out
 
 
+# ----------------------------------------------------------------------------------------------
+# AV1 sequence header encoder following the AV1 specification's syntax (5.5)
+# ----------------------------------------------------------------------------------------------
+class BitW:
+    def __init__(self):
+        self.bits = []
+    def f(self, n, v):
+        for i in range(n - 1, -1, -1):
+            self.bits.append((v >> i) & 1)
+    def bytes(self):
+        b = list(self.bits)
+        b.append(1)                      # trailing_one_bit
+        while len(b) % 8:
+            b.append(0)
+        return bytes(int("".join(map(str, b[i:i + 8])), 2) for i in range(0, len(b), 8))
+
+
+def av1_seq_header(rng, dist, force=None):
+    """random syntactically valid sequence_header_obu payload; returns (payload, fields)"""
+    force = force or {}
+    def pick(name, choices):
+        return force[name] if name in force else rng.choice(choices)
+    w = BitW()
+    profile = pick("profile", [0, 0, 1, 2, 2])
+    still = pick("still", [0, 0, 0, 1])
+    reduced = pick("reduced", [0, 0, 0, 1]) if still else 0
+    w.f(3, profile); w.f(1, still); w.f(1, reduced)
+    level = tier = 0
+    br = []
+    if reduced:
+        level = rng.randrange(32); w.f(5, level)
+        br.append("reduced")
+    else:
+        timing = pick("timing", [0, 0, 1])
+        w.f(1, timing)
+        dmi = 0
+        bdl = 0
+        if timing:
+            br.append("timing")
+            w.f(32, rng.randrange(1, 2 ** 32)); w.f(32, rng.randrange(1, 2 ** 32))
+            epi = rng.randrange(2); w.f(1, epi)
+            if epi:
+                br.append("equal_picture_interval")
+                lz = rng.choice([0, 0, 1, 3, 7]); w.f(lz, 0); w.f(1, 1); w.f(lz, rng.randrange(2 ** lz))
+            dmi = pick("dmi", [0, 1]); w.f(1, dmi)
+            if dmi:
+                br.append("decoder_model_info")
+                bdl = rng.randrange(32); w.f(5, bdl); w.f(32, rng.randrange(2 ** 32)); w.f(5, rng.randrange(32)); w.f(5, rng.randrange(32))
+                bdl += 1
+        iddp = pick("iddp", [0, 0, 1]); w.f(1, iddp)
+        if iddp: br.append("initial_display_delay")
+        opc = pick("opcnt", [0, 0, 0, 1, 3]); w.f(5, opc)
+        if opc: br.append("multi_op")
+        for i in range(opc + 1):
+            w.f(12, rng.randrange(4096))
+            lv = rng.randrange(32); w.f(5, lv)
+            tr = 0
+            if lv > 7:
+                tr = rng.randrange(2); w.f(1, tr); br.append("tier_bit")
+            if i == 0:
+                level, tier = lv, tr
+            if dmi:
+                p = rng.randrange(2); w.f(1, p)
+                if p:
+                    w.f(bdl, rng.randrange(2 ** bdl)); w.f(bdl, rng.randrange(2 ** bdl)); w.f(1, rng.randrange(2))
+            if iddp:
+                p = rng.randrange(2); w.f(1, p)
+                if p:
+                    w.f(4, rng.randrange(16))
+    fwb = rng.randrange(16); fhb = rng.randrange(16)
+    w.f(4, fwb); w.f(4, fhb); w.f(fwb + 1, rng.randrange(2 ** (fwb + 1))); w.f(fhb + 1, rng.randrange(2 ** (fhb + 1)))
+    if not reduced:
+        fid = rng.choice([0, 0, 1]); w.f(1, fid)
+        if fid:
+            br.append("frame_id"); w.f(4, rng.randrange(16)); w.f(3, rng.randrange(8))
+    w.f(3, rng.randrange(8))
+    if not reduced:
+        w.f(4, rng.randrange(16))
+        eoh = rng.randrange(2); w.f(1, eoh)
+        if eoh:
+            br.append("order_hint"); w.f(2, rng.randrange(4))
+        scsct = rng.randrange(2); w.f(1, scsct)
+        if scsct:
+            sfsct = 2
+        else:
+            sfsct = rng.randrange(2); w.f(1, sfsct)
+        if sfsct > 0:
+            scim = rng.randrange(2); w.f(1, scim)
+            if not scim:
+                w.f(1, rng.randrange(2))
+            br.append("screen_content")
+        if eoh:
+            w.f(3, rng.randrange(8))
+    w.f(3, rng.randrange(8))
+    # color_config
+    hbd = pick("hbd", [0, 1]); w.f(1, hbd)
+    tw = 0
+    if profile == 2 and hbd:
+        tw = pick("twelve", [0, 1]); w.f(1, tw)
+    bitdepth = 12 if (profile == 2 and tw) else (10 if hbd else 8)
+    mono = 0
+    if profile != 1:
+        mono = pick("mono", [0, 0, 0, 1]); w.f(1, mono)
+    cdp = pick("cdp", [0, 0, 1]); w.f(1, cdp)
+    cp = tc = mc = 2
+    if cdp:
+        if pick("srgb", [0, 0, 1]) and not mono:
+            cp, tc, mc = 1, 13, 0
+        else:
+            cp, tc, mc = rng.randrange(256), rng.randrange(256), rng.randrange(256)
+            if (cp, tc, mc) == (1, 13, 0): mc = 1
+        w.f(8, cp); w.f(8, tc); w.f(8, mc)
+    csp = 0
+    if mono:
+        br.append("mono"); w.f(1, rng.randrange(2)); sx = sy = 1
+    elif (cp, tc, mc) == (1, 13, 0):
+        br.append("srgb"); sx = sy = 0; w.f(1, rng.randrange(2))
+    else:
+        w.f(1, rng.randrange(2))
+        if profile == 0:
+            sx = sy = 1
+        elif profile == 1:
+            sx = sy = 0
+        elif bitdepth == 12:
+            br.append("twelve_bit_subsampling")
+            sx = rng.randrange(2); w.f(1, sx)
+            sy = 0
+            if sx:
+                sy = rng.randrange(2); w.f(1, sy)
+        else:
+            sx, sy = 1, 0
+        if sx and sy:
+            csp = rng.randrange(4); w.f(2, csp)
+        w.f(1, rng.randrange(2))
+    w.f(1, rng.randrange(2))       # film_grain_params_present
+    for b in br:
+        dist["av1_branch=" + b] += 1
+    dist["av1_profile=%d" % profile] += 1
+    return w.bytes(), dict(profile=profile, level=level, tier=tier, hbd=hbd, tw=tw, mono=mono, sx=sx, sy=sy, csp=csp)
+
+
+def av1_obu(obu_type, payload, rng, size_field=True, ext=False):
+    hdr = (obu_type << 3) | (4 if ext else 0) | (2 if size_field else 0)
+    out = bytes([hdr]) + (bytes([rng.randrange(256)]) if ext else b"")
+    if size_field:
+        n = len(payload)
+        l = leb128(n)
+        if rng.random() < 0.15 and len(l) < 3:
+            l = bytes([l[0] | 0x80]) + (bytes([l[1] | 0x80, 0]) if len(l) > 1 else bytes([0]))   # non-minimal leb128
+        out += l
+    return out + payload
+
+
+def av1_keyframe_from(rng, dist, force=None):
+    payload, fields = av1_seq_header(rng, dist, force)
+    parts = []
+    if rng.random() < 0.5:
+        parts.append(av1_obu(2, b"", rng))                      # temporal delimiter
+    parts.append(av1_obu(1, payload, rng, ext=rng.random() < 0.2))
+    if rng.random() < 0.2:
+        parts.append(av1_obu(5, bytes([1, 2, 3]), rng))          # metadata
+    last_no_size = rng.random() < 0.2
+    parts.append(av1_obu(6, bytes([0x10]) + nal_body(rng, rng.randrange(2, 20)), rng, size_field=not last_no_size))
+    return b"".join(parts)
+
+
+def gen_C07(rng, tier, dist):
+    out = []
+    n = 1500 if tier == "quick" else 100000
+    for _ in range(n):
+        codec = rng.choice(VCODECS)
+        audio = rng.choice(AUDIOS)
+        rate = rng.choice([96000, 88200, 64000, 48000, 44100, 32000, 24000, 22050, 16000, 12000, 11025, 8000, 7350, 12345, 1])
+        ch = rng.choice([1, 2, 2, 3, 6, 7, 8, 255, 300])
+        w, h = rng.choice([(640, 480), (1, 1), (65535, 65535), (1920, 1080), (4096, 2160)])
+        if codec == "h264":
+            parts = []
+            nn = rng.randrange(3, 9)
+            types = [7, 8, 5] + [rng.choice([7, 8, 6, 9, 1, 5]) for _ in range(nn - 3)]
+            rng.shuffle(types)
+            for t in types:
+                parts.append(rng.choice([SC3, SC4]) + bytes([0x60 | t]) + nal_body(rng, rng.choice([0, 1, 3, 20, 300])))
+            key = bytes(rng.choice([0, 0, 0xFF]) for _ in range(rng.randrange(0, 3) if rng.random() < 0.2 else 0)) + b"".join(parts) + bytes(rng.randrange(0, 3))
+        elif codec == "h265":
+            parts = []
+            types = [32, 33, 34, 19] + [rng.choice([32, 33, 34, 39, 1, 20]) for _ in range(rng.randrange(0, 5))]
+            rng.shuffle(types)
+            for t in types:
+                parts.append(rng.choice([SC3, SC4]) + bytes([t << 1, 1]) + nal_body(rng, rng.choice([0, 2, 13, 20, 300])))
+            key = b"".join(parts)
+        elif codec == "av1":
+            key = av1_keyframe_from(rng, dist)
+        else:
+            prof = rng.randrange(4)
+            key = bytes([0x49, 0x83, 0x42, (prof << 6), 0x80]) + (bytes([rng.randrange(256)]) if prof >= 2 else b"") + \
+                leb128(rng.choice([100, 1920, 70000])) + leb128(rng.choice([100, 1080])) + bytes([rng.randrange(256), rng.randrange(256)]) + nal_body(rng, 5)
+        ops = ["wv %s %s 1" % (f64bits(0.0), hx(key))]
+        if audio != "none" and rng.random() < 0.7:
+            ops.append("wa %s %s" % (f64bits(0.0), hx(audio_frame(rng, audio))))
+        ops.append("fins")
+        dist["codec=" + codec] += 1
+        out.append(pcase(cfg_str(codec=codec, w=w, h=h, audio=audio, rate=rate, ch=ch, fast=rng.randrange(2)), ops))
+    # AV1: every flag combination with fixed literals
+    flagnames = ["still", "timing", "dmi", "iddp", "hbd", "twelve", "mono", "cdp", "srgb"]
+    profs = [0, 1, 2]
+    combos = list(itertools.product([0, 1], repeat=len(flagnames)))
+    rng.shuffle(combos)
+    for combo in combos[: (60 if tier == "quick" else len(combos))]:
+        for prof in profs:
+            force = dict(zip(flagnames, combo)); force["profile"] = prof; force["reduced"] = 0; force["opcnt"] = 0
+            key = av1_keyframe_from(rng, dist, force)
+            out.append(pcase(cfg_str(codec="av1"), ["wv %s %s 1" % (f64bits(0.0), hx(key)), "fins"]))
+    # fragmented init segments with builder parameter sets of many lengths
+    for _ in range(200 if tier == "quick" else 10000):
+        out.append(fcase(frag_cfg(rng, dist), ["finit"]))
+    return out
+
+
+def gen_C19(rng, tier, dist):
+    out = []
+    dims = [(640, 480), (1, 1), (65535, 65535), (1920, 1080)]
+    rates = [48000, 44100, 8000, 96000, 65535]
+    for codec in VCODECS:
+        for audio in AUDIOS:
+            for fast in (0, 1):
+                for md in (dict(md=0), dict(md=1, title=b"t", ctime=1700000000, lang=b"eng")):
+                    w, h = rng.choice(dims)
+                    ops = ["wv %s %s 1" % (f64bits(0.0), hx(key_frame(rng, codec))), "wv %s %s 0" % (f64bits(0.04), hx(delta_frame(rng, codec)))]
+                    if audio != "none":
+                        ops.append("wa %s %s" % (f64bits(0.0), hx(audio_frame(rng, audio))))
+                    ops.append("fins")
+                    out.append(pcase(cfg_str(codec=codec, w=w, h=h, audio=audio, rate=rng.choice(rates), ch=rng.choice([1, 2, 6]), fast=fast, **md), ops))
+                    dist["cfg"] += 1
+    n = 100 if tier == "quick" else 5000
+    for _ in range(n):
+        cfg, ops, info = gen_history(rng, dist)
+        out.append(pcase(cfg, ops))
+    for _ in range(150 if tier == "quick" else 5000):
+        out.append(fcase(frag_cfg(rng, dist), ["finit", "fw 0 0 aabb 1", "fw 3000 3000 cc 0", "fflush"]))
+    return out
+
+
 GENERATORS = {"C14": gen_C14, "C01": gen_C01, "C02": gen_C02, "C03": gen_C03, "C15": gen_C15, "C06": gen_C06,
               "C09": gen_C09, "C08": gen_C08, "C18": gen_C18, "C04": gen_C04, "C05": gen_C05,
-              "C10": gen_C10, "C11": gen_C11, "C13": gen_C13}
+              "C10": gen_C10, "C11": gen_C11, "C13": gen_C13,
+              "C07": gen_C07, "C19": gen_C19}
 
 RULES = {
     "C14": "exhaustive byte strings up to a length bound over {00,01,02,03,67,FF} through both conversion entry points; "
